@@ -71,6 +71,12 @@ impl DhtHandler {
         let table_refresh = TableRefresh::new(mid_generator, table.clone());
 
         let mid_generator = aid_generator.generate();
+        #[cfg(btdht_verif)]
+        crate::verif_log::record(format!(
+            "AIDS refresh={:?} bootstrap={:?}",
+            table_refresh.action_id(),
+            mid_generator.action_id()
+        ));
         let bootstrap =
             TableBootstrap::new(socket.clone(), table.clone(), mid_generator, routers, nodes);
 
